@@ -571,7 +571,7 @@ pub fn run_batch<E: Engine>(e: &E, opts: &BatchOpts) -> i32 {
                             agg.aborted_samples.push(format!("seed={} {}", seed, a));
                         }
                     }
-                    if i < 2 {
+                    if i < 2 && opts.write_evidence {
                         // keep the first runs of the batch as written-out samples
                         let mut c2 = Ctx::new(true);
                         let _ = e.execute(&case, &mut c2);
